@@ -69,6 +69,7 @@ type Sched struct {
 	OnSpawn func(t *Task)
 	aborted atomic.Bool
 	// Counters of rare conditions (probes).
+	HugeAllocs    int
 	LockContended int
 	SelectMulti   int
 	MapRanges     int
@@ -186,6 +187,12 @@ func spawn(site string, fn func(), repo bool) *Task {
 		defer func() {
 			r := recover()
 			if _, isAbort := r.(abortSentinel); isAbort {
+				r = nil
+			}
+			if _, isHuge := r.(HugeAlloc); isHuge {
+				s.mu.Lock()
+				s.HugeAllocs++
+				s.mu.Unlock()
 				r = nil
 			}
 			if r != nil {
@@ -453,6 +460,33 @@ func sortKeys[K comparable](keys []K) {
 		out[i] = keys[j]
 	}
 	copy(keys, out)
+}
+
+// ---- allocation guard ----
+
+// AllocLimit (bytes; 0 = off) bounds a single make / reflect.MakeSlice in instrumented code. The
+// instrumenter wraps the length and capacity arguments of those calls in AllocGuard. The sandbox has no
+// per-process memory limit, and several decoders allocate "declared count x element size" before they
+// read a single element: without the guard one hostile count takes the whole machine down. Exceeding
+// the limit panics with HugeAlloc, which the harness counts separately and never judges (memory
+// exhaustion is not part of any property statement).
+var AllocLimit int64
+
+type HugeAlloc struct{ Bytes int64 }
+
+func (h HugeAlloc) Error() string { return fmt.Sprintf("simrt: allocation of %d bytes refused by the guard", h.Bytes) }
+
+type integer interface {
+	~int | ~int8 | ~int16 | ~int32 | ~int64 | ~uint | ~uint8 | ~uint16 | ~uint32 | ~uint64 | ~uintptr
+}
+
+func AllocGuard[T integer](n T, elemSize int) T {
+	if l := AllocLimit; l > 0 && n > 0 {
+		if b := int64(n) * int64(elemSize); b > l || b < 0 {
+			panic(HugeAlloc{Bytes: b})
+		}
+	}
+	return n
 }
 
 // InnermostRepoFunc extracts from a stack trace the innermost function that belongs to the
